@@ -590,6 +590,9 @@ def run(repo, res, tier):
     # collected every cmd-carrying symbol; `completion_subwords[level]` is in range because get_max_fallback_level saw every level-carrying symbol
     FC.fieldcover(repo, res, "dfa::DFA::get_commands", "Inp", "cmd", "call:insert", min_matches=2)
     FC.fieldcover(repo, res, "dfa::Inp::get_fallback_level", "Inp", "fallback_level", "value")
+    # `id_from_literal_description.get(&(literal, description)).unwrap()` in the dfa.rs getters: the map holds the automaton's own pairs
+    from . import c04
+    c04.literal_ids_premise(repo, res)
     column_units(repo, res)
     from . import c10
     c10.outfile_rule(repo, res)  # `having written a complete script`: the destination holds this run's bytes only
